@@ -115,6 +115,14 @@ Fixpoint newest (k : key) (l : list entry) : option entry :=
 Definition read (l : list entry) (k : key) : option (list N) :=
   match newest k l with Some e => evalue e | None => None end.
 
+(* the precondition under which a GC of the inputs [es] cannot change what key k reads in a tree
+   whose other entries are [rest]: every version of k outside the inputs is newer than every
+   version inside.  A compaction into the LAST level whose inputs are closed under overlap has it
+   (nothing lies below the last level; Bridge_Lsm.v derives it from area Lsm's tree invariant
+   Ordered and the admissibility predicate valid_compactionb). *)
+Definition inputs_closed_for (rest es : list entry) (k : key) : Prop :=
+  forall x y, In x rest -> In y es -> ekey x = k -> ekey y = k -> ets y < ets x.
+
 (* input shapes *)
 (* equal keys are adjacent: once a key has been left it does not come back *)
 Fixpoint contiguous (es : list entry) : Prop :=
